@@ -569,7 +569,16 @@ func TestC12(t *testing.T) {
 			_ = env.node.WriteMessageExcept(open[0].Ch, &MessageVfUid{Uid: 7})
 		}
 		time.Sleep(5 * time.Millisecond)
-		env.node.Close()
+		dclosed := make(chan struct{})
+		go func() { env.node.Close(); close(dclosed) }()
+		select {
+		case <-dclosed:
+		case <-time.After(10 * time.Second):
+			rep.Violation("what=close-stuck@discovery", "Node.Close did not return within 10 s in a plain run of scenario "+kind+" (all timers <= 300 ms)",
+				map[string]interface{}{"scenario": kind, "goroutines": strings.Join(libGoroutines(), "\n\n")})
+			stuck = true
+			continue
+		}
 		<-cons.done
 		env.cleanup()
 		hits := hookHits()
